@@ -3,12 +3,17 @@
 EXTENDS RoundState
 
 UnitW == [v \in Voters |-> 1]
-Sym == Permutations(Voters)
+SymRest == Permutations(Voters \ EqV)
+SymEq == Permutations(EqV) \cup Permutations(Voters \ EqV)
+ASSUME PaperThreshold4 == LET n == 4 f == 1 IN 2 * VFThreshold(n) = n + f + 1
+ASSUME PaperThreshold7 == LET n == 7 f == 2 IN 2 * VFThreshold(n) = n + f + 1
+ASSUME PaperThreshold1 == 2 * VFThreshold(1) = 1 + 0 + 1
 
 (* exhaustive model checking: every tree with 3 blocks (chain, fork) *)
 MTrees3 == VFAllTrees(3)
 (* every tree with 4 blocks *)
 MTrees4 == VFAllTrees(4)
+MTrees == UNION {VFAllTrees(n) : n \in 1..4}
 
 (* generation: every tree with 2..5 blocks, plus deeper hand-made shapes  *)
 (* (long edges exercise the vote graph's compressed ancestry)             *)
